@@ -66,6 +66,7 @@ struct Config
   double scale = 1.;
   bool exact = false;           // integer coordinates, radius exactly on a sample
   bool grid = false;            // target = node of a DbGrid
+  bool self = false;            // a sample flagged "is the target": the data base is its own target Db
   std::vector<std::string> checkers;
   int every = 1, offset = 0;
   int metric = 0;               // metric class (1-based) for the ball search, 0 = no ball search
@@ -83,6 +84,7 @@ static Config readConfig(const Value& v)
   c.scale = v.getd("scale", 1.);
   c.exact = v.getb("exact", false);
   c.grid = v.getb("grid", false);
+  c.self = v.getb("self", false);
   c.checkers = v.at("checkers").strings();
   c.every = v.geti("every", 1);
   c.offset = v.geti("offset", 0);
@@ -280,6 +282,7 @@ static Value runCase(const Value& kase, const Config& cfg, const std::vector<dou
       if (how[i] == 1) code[i] = 9.;
       else if (kfold) code[i] = cs[i].flag ? codeTarget : 4.;
       else code[i] = (i % 2) ? codeTarget : 4.;
+      if (cfg.self && !kfold && cs[i].flag && how[i] != 1) code[i] = codeTarget;   // it is the target
     }
     db->addColumns(code, "code", ELoc::C, 0);
   }
@@ -294,7 +297,16 @@ static Value runCase(const Value& kase, const Config& cfg, const std::vector<dou
   // ---- target Db
   Db* dbout = nullptr;
   int iout = 0;
-  if (cfg.grid)
+  int iself = -1;
+  if (cfg.self && !kfold)
+    for (int i = 0; i < n; i++) if (cs[i].flag) iself = i;
+  if (iself >= 0)
+  {
+    // cross-validation as it is run in practice: the target is the sample itself, in the same Db
+    dbout = db;
+    iout = iself;
+  }
+  else if (cfg.grid)
   {
     VectorInt nx(dim, 2);
     VectorDouble dx(dim, 50. * cfg.scale), x0(dim);
@@ -315,9 +327,13 @@ static Value runCase(const Value& kase, const Config& cfg, const std::vector<dou
     }
     iout = nt - 1;
   }
-  int ntg = dbout->getSampleNumber();
-  if (needCode) dbout->addColumns(VectorDouble(ntg, codeTarget), "code", ELoc::C, 0);
-  if (hasDate) dbout->addColumns(VectorDouble(ntg, dateTarget), "date", ELoc::DATE, 0);
+  if (iself < 0)
+  {
+    int ntg = dbout->getSampleNumber();
+    if (needCode) dbout->addColumns(VectorDouble(ntg, codeTarget), "code", ELoc::C, 0);
+    if (hasDate) dbout->addColumns(VectorDouble(ntg, dateTarget), "date", ELoc::DATE, 0);
+  }
+  out["self"] = Value(iself >= 0);
 
   // ---- the neighbourhood
   double radius = cfg.exact ? 5. * cfg.scale * radiusRank : (radiusRank + 0.5) * cfg.scale;
@@ -380,8 +396,8 @@ static Value runCase(const Value& kase, const Config& cfg, const std::vector<dou
     out["b"] = b;
   }
   delete faults;
+  if (dbout != db) delete dbout;
   delete db;
-  delete dbout;
   return out;
 }
 
